@@ -238,6 +238,8 @@ def classify(hist, j, impl, model, spec, tie_ok):
         t = l.split()
         if t[0] == "load":
             loads["m" + t[1]] = t[2:]; pending.append("m" + t[1])
+        elif t[0] == "reload":
+            if "m" + t[1] not in pending: pending.append("m" + t[1])
         elif t[0] == "link":
             if k < len(impl) and k < j and not impl[k].startswith("ok"): continue   # a failed link changes nothing here
             if t[1] == "null":
@@ -249,6 +251,11 @@ def classify(hist, j, impl, model, spec, tie_ok):
         # an interpreted module reached a thunk that is not linked yet
         if any(i == "interp" and any(d[0] in "PR" for d in loads[m]) for m, i in iface_of.items()):
             return "C13:interp-late-rebinding"
+        # machine code kept from the first generation of a reloaded module still calls/reads through what it
+        # was bound to then (an external registered as NULL, a function whose module is unlinked again)
+        reloaded_ids = {"m" + l.split()[1] for l in hist[:j] if l.startswith("reload ")}
+        if any(i in ("gen", "lazy") and m in reloaded_ids for m, i in iface_of.items()):
+            return "C13:reload-stale-mcode"
         return "C13:binding-not-last-def"
     iv, sv = parse_vals(il), parse_vals(sl)
     sigs = set()
